@@ -103,6 +103,20 @@ std::string demangle(const char* n)
    std::string r = (st == 0 && d) ? d : n; std::free(d); return r;
 }
 
+// ---- the process environment as the program sees it (-Wl,--wrap=getenv,--wrap=secure_getenv)
+int g_env_mode = 0; bool g_env_active = false;
+std::map<std::string, uint64_t> g_env_queries; ///< names the program asked for (reported as probes)
+} // namespace
+extern "C" char* __real_getenv(const char*);
+extern "C" char* __wrap_getenv(const char* name)
+{
+   if (!g_env_active || !name) return __real_getenv(name);
+   g_env_queries[name]++;
+   return const_cast<char*>(clisim::simulated_env(g_env_mode, name));
+}
+extern "C" char* __wrap_secure_getenv(const char* name) { return __wrap_getenv(name); }
+namespace {
+
 /// run the program once against the scenario (L1)
 void run_l1(const Scenario& s, Outcome& o)
 {
@@ -117,6 +131,7 @@ void run_l1(const Scenario& s, Outcome& o)
    case SRC_EMPTYNAME: source = ""; break;
    case SRC_NONE: break;
    case SRC_MISSING_LONG: source = g_fsdir + "/" + s.longname; break;
+   case SRC_TILDE: { static const char* const sp[] = {"~/input.in", "~", "~nobody/x", "~/"}; source = sp[s.tilde_kind & 3]; } break;
    }
    const bool have_file = s.src == SRC_PATH || s.materialise_file;
    if (have_file) { FILE* f = std::fopen(path.c_str(), "wb"); if (f) { std::fwrite(s.doc.data(), 1, s.doc.size(), f); std::fclose(f); } }
@@ -143,6 +158,7 @@ void run_l1(const Scenario& s, Outcome& o)
    std::cin.exceptions(std::ios::goodbit); std::cout.exceptions(std::ios::goodbit); std::cerr.exceptions(std::ios::goodbit);
    g_steps = 0;
    sim::Watchdog::arm();
+   g_env_mode = s.env_mode; g_env_active = true;
    try {
       o.status = gm2calc_main((int)args.size(), argv.data());
    } catch (const ExitException& e) {
@@ -152,6 +168,7 @@ void run_l1(const Scenario& s, Outcome& o)
       o.uncaught = ti ? demangle(ti->name()) : "unknown";
    }
    o.cpu_ms = sim::Watchdog::disarm();
+   g_env_active = false;
    o.steps = g_steps;
    std::cout.flush();
    std::cin.rdbuf(oin); std::cout.rdbuf(oout); std::cerr.rdbuf(oerr);
@@ -533,6 +550,23 @@ struct CmdLineSpace {
 };
 CmdLineSpace g_cmdline;
 
+/// every command line of one or two atoms x every non-ordinary process environment, plus the tilde spellings as input source
+struct EnvSpace {
+   size_t total = 0, ncl = 0;
+   void build() { const size_t n = N_ATOMS; ncl = n + n * n; total = (ncl + 3 * 4) * (N_ENV_MODES - 1); }
+   std::vector<std::string> plan(size_t idx) const
+   {
+      if (idx >= total) return {};
+      const int mode = 1 + (int)(idx % (N_ENV_MODES - 1)); idx /= (N_ENV_MODES - 1);
+      std::vector<std::string> p;
+      if (idx < ncl) p = g_cmdline.plan(idx);
+      else { idx -= ncl; static const char* const ty[] = {"slha", "gm2calc", "thdm"}; p = {"base corpus " + g_corpus.files[0].rel, std::string("type ") + ty[idx / 4], "src tilde " + std::to_string(idx % 4)}; }
+      p.push_back("env " + std::to_string(mode));
+      return p;
+   }
+};
+EnvSpace g_envspace;
+
 /// boundary documents: (a) one CR / NUL inserted at every offset of the three example files, (b) the examples padded
 /// to 64 KiB with one special byte written at every offset 2^k-2 .. 2^k+1 (k = 8..16: where block-wise readers end a
 /// buffer), (c) a curated list of edge documents (DOS/Mac line endings, torn between CR and LF, no final newline,
@@ -595,6 +629,7 @@ std::vector<std::string> plan_of(const std::string& kind, uint64_t seed, uint64_
    if (kind == "CONFIGQ") return g_configq.plan(idx);
    if (kind == "ARGLEN") return g_arglen.plan(idx);
    if (kind == "CMDLINE") return g_cmdline.plan(idx);
+   if (kind == "ENV") return g_envspace.plan(idx);
    if (kind == "SCALE") return g_scale.plan(idx);
    if (kind == "SCALEQ") return g_scaleq.plan(idx);
    if (kind == "BOUNDARY") return g_boundary.plan(idx);
@@ -614,7 +649,7 @@ int main(int argc, char** argv)
    g_fsdir = argv[3];
    mkdir(g_fsdir.c_str(), 0755);
    if (g_corpus.files.empty()) { std::printf("NOTE empty corpus\n"); }
-   g_prefix.build(false); g_prefixq.build(true); g_token.build(false); g_tokenq.build(true); g_config.build(false); g_configq.build(true); g_arglen.build(); g_cmdline.build(); g_boundary.build(); g_scale.build(false); g_scaleq.build(true);
+   g_prefix.build(false); g_prefixq.build(true); g_token.build(false); g_tokenq.build(true); g_config.build(false); g_configq.build(true); g_arglen.build(); g_cmdline.build(); g_envspace.build(); g_boundary.build(); g_scale.build(false); g_scaleq.build(true);
 
    // calibrate the logical step budget on the intact corpus of the current tree
    // (in a forked child: the worker itself must not have executed the program before its first run, so that a plan
@@ -649,7 +684,7 @@ int main(int argc, char** argv)
    while (sim::read_line(line)) {
       const auto t = sim::split(line);
       if (t.empty()) continue;
-      if (t[0] == "RUNS" || t[0] == "LIGHT" || t[0] == "PREFIX" || t[0] == "PREFIXQ" || t[0] == "TOKEN" || t[0] == "TOKENQ" || t[0] == "CONFIG" || t[0] == "CONFIGQ" || t[0] == "ARGLEN" || t[0] == "CMDLINE" || t[0] == "BOUNDARY" || t[0] == "SCALE" || t[0] == "SCALEQ" || t[0] == "CORPUS") {
+      if (t[0] == "RUNS" || t[0] == "LIGHT" || t[0] == "PREFIX" || t[0] == "PREFIXQ" || t[0] == "TOKEN" || t[0] == "TOKENQ" || t[0] == "CONFIG" || t[0] == "CONFIGQ" || t[0] == "ARGLEN" || t[0] == "CMDLINE" || t[0] == "ENV" || t[0] == "BOUNDARY" || t[0] == "SCALE" || t[0] == "SCALEQ" || t[0] == "CORPUS") {
          const bool rnd = t[0] == "RUNS" || t[0] == "LIGHT";
          if (t.size() < (rnd ? 4u : 3u)) { std::printf("NOTE malformed command: %s\nDONE\n", line.c_str()); continue; }
          const uint64_t seed = rnd ? std::strtoull(t[1].c_str(), nullptr, 0) : 0;
@@ -665,6 +700,8 @@ int main(int argc, char** argv)
             if (rr.sig[0]) { std::printf("CAND run=%" PRIu64 " sig=%s\n", i, rr.sig); st.add("candidates"); }
             if ((i & 63) == 0 || g_hash_all) std::printf("HASH run=%" PRIu64 " hash=%016" PRIx64 "\n", i, rr.hash);
          }
+         for (auto& kv : g_env_queries) st.add("probe_getenv_" + kv.first, kv.second);
+         g_env_queries.clear();
          std::string cj = "{"; bool fst = true;
          for (auto& kv : classes) { if (!fst) cj += ","; fst = false; cj += "\"" + sim::jesc(kv.first) + "\":" + std::to_string(kv.second); }
          cj += "}";
@@ -673,7 +710,7 @@ int main(int argc, char** argv)
          g_hash_all = t.size() > 1 && t[1] != "0";
          std::printf("DONE\n");
       } else if (t[0] == "COUNT") {
-         std::printf("COUNT CONFIG %zu\nCOUNT CONFIGQ %zu\nCOUNT ARGLEN %zu\nCOUNT BOUNDARY %zu\nCOUNT EDGE %zu\nCOUNT SCALE %zu\nCOUNT SCALEQ %zu\nCOUNT CMDLINE %zu\n", g_config.total, g_configq.total, g_arglen.total, g_boundary.total, g_boundary.edge.size(), g_scale.total, g_scaleq.total, g_cmdline.total);
+         std::printf("COUNT CONFIG %zu\nCOUNT CONFIGQ %zu\nCOUNT ARGLEN %zu\nCOUNT BOUNDARY %zu\nCOUNT EDGE %zu\nCOUNT SCALE %zu\nCOUNT SCALEQ %zu\nCOUNT CMDLINE %zu\nCOUNT ENV %zu\n", g_config.total, g_configq.total, g_arglen.total, g_boundary.total, g_boundary.edge.size(), g_scale.total, g_scaleq.total, g_cmdline.total, g_envspace.total);
          std::printf("COUNT PREFIX %zu\nCOUNT PREFIXQ %zu\nCOUNT TOKEN %zu\nCOUNT TOKENQ %zu\nCOUNT CORPUS %zu\nBUDGET %" PRIu64 " %" PRIu64 "\nDONE\n",
                      g_prefix.total, g_prefixq.total, g_token.total, g_tokenq.total, 2 * g_corpus.files.size(), g_budget, max_steps);
       } else if (t[0] == "DUMP" && t.size() >= 4) {
@@ -693,6 +730,8 @@ int main(int argc, char** argv)
                                "\nreaderr " + std::to_string(s.readerr) + "\neintr " + std::to_string(s.eintr) + "\nsinkfail_out " + std::to_string(s.sinkfail_out) + "\nsinkfail_err " + std::to_string(s.sinkfail_err) + "\n";
             if (s.src == SRC_MISSING_LONG) meta += "longname " + s.longname + "\n";
             if (s.materialise_file) meta += "materialise 1\n";
+            meta += "env " + std::to_string(s.env_mode) + "\n";
+            if (s.src == SRC_TILDE) { static const char* const sp[] = {"~/input.in", "~", "~nobody/x", "~/"}; meta += std::string("tilde ") + sp[s.tilde_kind & 3] + "\n"; }
             auto esc = [](const std::string& a) { std::string o; for (char c : a) { if (c == '\\') o += "\\\\"; else if (c == '\n') o += "\\n"; else o += c; } return o; };
             for (auto& a : s.pre_args) meta += "prearg " + esc(a) + "\n";
             for (auto& a : s.post_args) meta += "postarg " + esc(a) + "\n";
